@@ -332,6 +332,29 @@ def decoder_case(p, res):
             if tuple(out.shape) != (len(msgs), k) or out.to(torch.float32).tolist() != [[float(t) for t in m] for m in msgs_o]:
                 bad = next((i for i in range(len(msgs)) if tuple(out.shape) != (len(msgs), k) or out[i].to(torch.float32).tolist() != [float(t) for t in msgs_o[i]]), 0)
                 res.viol(dec, cfg, "polarity", f"codeword of message {msgs_o[bad]} sent with {scheme}, soft-demodulated and decoded -> {out[bad].tolist() if out.dim() == 2 else tuple(out.shape)}", {"msg": msgs[bad]})
+    # the whole magnitude range of the property (1e-3 .. 1e3) directly on the decoders: noise-free LLRs of every codeword, polarity = message
+    codes = [(enc, mk)]
+    if dec in ("sc", "polar-bp"):
+        for kk, nn in ((8, 16), (16, 32)):
+            e2 = E.PolarCodeEncoder(kk, nn, frozen_zeros=True, load_rank=True)
+            codes.append((e2, (lambda e2=e2: D.SuccessiveCancellationDecoder(e2)) if dec == "sc" else (lambda e2=e2: D.BeliefPropagationPolarDecoder(e2, bp_iters=10))))
+    for e_, mk_ in codes:
+        n_, k_ = int(e_.code_length), int(e_.code_dimension)
+        ms = [list(m) for m in product([0, 1], repeat=k_)] if k_ <= 8 else [[(i >> j) & 1 for j in range(k_)] for i in list(range(0, 1 << k_, 257))[:256]]
+        xm = torch.tensor(ms, dtype=torch.float32)
+        cw_ = e_(xm)
+        d_ = mk_()
+        for mag in (1e-3, 1e-2, 1e2, 1e3):
+            cfg = f"n={n_},k={k_},magnitude={mag}"
+            try:
+                out = d_((1 - 2 * cw_) * mag)
+            except Exception as e:  # noqa: BLE001
+                res.viol(dec, cfg, "raises", f"{type(e).__name__}: {str(e)[:200]}")
+                continue
+            res.ev(len(ms), nontrivial=len(ms) - 1, transitions=1)
+            if tuple(out.shape) != tuple(xm.shape) or not torch.equal(out.to(torch.float32), xm):
+                i = int((out.to(torch.float32) != xm).any(dim=1).nonzero()[0]) if tuple(out.shape) == tuple(xm.shape) else 0
+                res.viol(dec, cfg, "polarity", f"noise-free LLRs of magnitude {mag} for message {ms[i]} decoded to {out[i].tolist() if out.dim() == 2 else tuple(out.shape)}", {"msg": ms[i], "mag": mag})
     res.sample({"decoder": dec, "n": n, "k": k})
 
 
